@@ -811,12 +811,18 @@ class ExcelCompiler:
             # a range intersection or union can resolve to a single cell
             return self._evaluate(address)
 
-        if cell_range.needs_calc:
+        if self.cycles and isinstance(cell_range, _CellRange):
+            # the cells of the range can change in every iteration
+            needs_calc = not iterative_eval_tracker.is_calced(cell_range)
+        else:
+            needs_calc = cell_range.needs_calc
+
+        if needs_calc:
             self.log.debug(f"Evaluating: {cell_range.address}, {cell_range.python_code}")
             if cell_range.address.is_unbounded_range:
                 bounded_addr = str(self.eval(cell_range))
                 bounded_addr_cell = self.cell_map.get(bounded_addr)
-                if bounded_addr_cell.value is None:
+                if self.cycles or bounded_addr_cell.value is None:
                     self._evaluate_range(bounded_addr)
                 data = bounded_addr_cell.value
 
@@ -831,6 +837,8 @@ class ExcelCompiler:
             self.log.info(f"Range {cell_range.address} evaluated to '{data}'")
 
             cell_range.value = data
+            if self.cycles and isinstance(cell_range, _CellRange):
+                iterative_eval_tracker.calced(cell_range)
 
         return cell_range.value
 
